@@ -5,6 +5,7 @@ import (
 	"bytes"
 	"encoding/json"
 	"fmt"
+	"io"
 	"net"
 	"net/http"
 	"os"
@@ -32,7 +33,7 @@ var c07Faults = []struct{ Point, Kind string }{
 	{"backend", "garbage-status"}, {"backend", "huge-headers"}, {"backend", "close-before-headers"}, {"backend", "rst"},
 	{"backend", "short-content-length"}, {"backend", "rst-mid-chunk"}, {"backend", "bad-chunk-size"}, {"backend", "one-byte-then-trailers"}, {"backend", "lying-content-encoding"}, {"backend", "malformed-set-cookie"}, {"backend", "latin1-html-head-at-chunk-end"},
 	{"backend-h2", "abort-before-headers"}, {"backend-h2", "abort-mid-body"}, {"backend-h2", "huge-headers"}, {"backend-h2", "slow-then-abort"},
-	{"upload", "500x3"}, {"upload", "404"}, {"upload", "reset-at-0"}, {"upload", "reset-at-4096"}, {"upload", "reset-at-end"}, {"upload", "stall"},
+	{"upload", "500x3"}, {"upload", "404"}, {"upload", "reset-at-0"}, {"upload", "reset-at-4096"}, {"upload", "reset-at-end"}, {"upload", "stall"}, {"upload", "409-after-first-bytes"}, {"upload", "401-after-first-bytes"},
 	{"shim", "data-malformed-json"}, {"shim", "data-unknown-session"}, {"shim", "poll-unknown-session"}, {"shim", "close-unknown-session"}, {"shim", "open-backend-refuses-upgrade"}, {"shim", "open-slow-failure-overlapping-opens"}, {"shim", "malformed-data-on-live-session"}, {"shim", "backend-closes-session-normally"}, {"shim", "backend-closes-session-going-away"}, {"shim", "open-malformed-url"}, {"shim", "data-wrong-shape"}, {"shim", "backend-stalls-then-closes-during-client-burst"}, {"shim", "backend-stalls-then-resets-during-client-burst"},
 }
 
@@ -390,6 +391,18 @@ func c07Lane_(r *core.Run, agentBin string, md *fakes.Metadata, li int, ln c07La
 		case "stall":
 			time.Sleep(4 * time.Second) // longer than --proxy-timeout=3s
 			http.Error(w, "late", 500)
+		case "409-after-first-bytes", "401-after-first-bytes":
+			// an early rejection of a partly uploaded response that the backend is still producing; the connection
+			// stays open for a while, so the agent's transport is still sending when the reply arrives
+			readN(1000)
+			if c := hijack(w); c != nil {
+				c.Write([]byte("HTTP/1.1 " + k[:3] + " Rejected\r\nContent-Type: text/plain\r\nContent-Length: 9\r\n\r\nrejected\n"))
+				go func() {
+					c.SetReadDeadline(time.Now().Add(600 * time.Millisecond))
+					io.Copy(io.Discard, c)
+					c.Close()
+				}()
+			}
 		}
 		return true
 	}
@@ -641,7 +654,11 @@ func c07Lane_(r *core.Run, agentBin string, md *fakes.Metadata, li int, ln c07La
 				}
 				up, got = px.Wait(id, 1500*time.Millisecond)
 			case "upload":
-				px.Enqueue(id, tokRequest("GET", "fu"+fmt.Sprint(inj), []int{100, 5000, 20000}[inj%3], 0, "c07.example", nil, nil), "")
+				if strings.HasSuffix(f.Kind, "-after-first-bytes") {
+					px.Enqueue(id, tokRequest("GET", "fu"+fmt.Sprint(inj), 40000, 0, "c07.example", nil, []rawhttp.Field{{Name: ":paced"}}), "")
+				} else {
+					px.Enqueue(id, tokRequest("GET", "fu"+fmt.Sprint(inj), []int{100, 5000, 20000}[inj%3], 0, "c07.example", nil, nil), "")
+				}
 				wait := 1500 * time.Millisecond
 				if f.Kind == "stall" {
 					wait = 6 * time.Second
